@@ -2,6 +2,7 @@ package replication
 
 import (
 	"fmt"
+	"sync"
 
 	"github.com/pkg/errors"
 	"google.golang.org/grpc"
@@ -21,6 +22,9 @@ type GRPCReplicationServer struct {
 	CertKeyFile string
 	// Key: IPAddr (e.g. "192.125.18.1:25"), Value: channel for messages sent to each gRPC stream
 	StreamChannels map[string]chan []byte
+	// mu guards StreamChannels and the closing of its channels: streams register and leave on
+	// their own goroutines while the sender fans messages out
+	mu sync.Mutex
 }
 
 func NewGRPCReplicationServer() *GRPCReplicationServer {
@@ -49,7 +53,9 @@ func (rs *GRPCReplicationServer) GetWALStream(_ *pb.GetWALStreamRequest, stream 
 	log.Info(fmt.Sprintf("new replica connection from:%s", clientAddr))
 
 	streamChannel := make(chan []byte, defaultReplicationStreamChannelSize)
+	rs.mu.Lock()
 	rs.StreamChannels[clientAddr] = streamChannel
+	rs.mu.Unlock()
 
 	// infinite loop
 	for {
@@ -69,8 +75,13 @@ func (rs *GRPCReplicationServer) GetWALStream(_ *pb.GetWALStreamRequest, stream 
 	}
 
 	// when an error occurred / client connection is closed, close the channel
-	delete(rs.StreamChannels, clientAddr)
-	close(streamChannel)
+	// (unless the sender already dropped this stream, or a new stream took over the address)
+	rs.mu.Lock()
+	if cur, ok := rs.StreamChannels[clientAddr]; ok && cur == streamChannel {
+		delete(rs.StreamChannels, clientAddr)
+		close(streamChannel)
+	}
+	rs.mu.Unlock()
 	log.Info(fmt.Sprintf("[master] closed replication connection: %v", clientAddr))
 
 	return nil
@@ -78,8 +89,17 @@ func (rs *GRPCReplicationServer) GetWALStream(_ *pb.GetWALStreamRequest, stream 
 
 func (rs *GRPCReplicationServer) SendReplicationMessage(transactionGroup []byte) {
 	// send a replication message to each replica
+	rs.mu.Lock()
+	defer rs.mu.Unlock()
 	for ip, channel := range rs.StreamChannels {
 		log.Debug("sending a replication message to %s", ip)
-		channel <- transactionGroup
+		select {
+		case channel <- transactionGroup:
+		default:
+			// the replica does not keep up: disconnect it instead of blocking the master's writes
+			log.Error(fmt.Sprintf("replication buffer for %s is full. closing the stream", ip))
+			delete(rs.StreamChannels, ip)
+			close(channel)
+		}
 	}
 }
